@@ -155,6 +155,28 @@ def h2_xml(maxlen=2, timeout=200, part=None, **kw):
                          timeout, concretize=conc, part=part)
 
 
+def h2_controls(timeout=100, **kw):
+    """strip_control=True: each of the 32 C0 control characters (and DEL) inside a glyph text - the output stays well-formed XML 1.0 and loses exactly the characters XML cannot carry"""
+    import pdfminer.converter as cv
+
+    def fn(ex):
+        c = chr(ex.choice(33, "c"))
+        if c == " ":
+            c = "\x7f"
+        texts = ["a" + c + "b", "y", "z"]
+        info = {"texts": texts, "font": "Font", "figname": "Fm1", "strip": True}
+        pg = build_tree(texts, "Font", "Fm1")
+        try:
+            xml = xml_of(pg, "text", strip=True)
+        except Exception as e:
+            ex.require(False, "XMLConverter raised %s: %s" % (type(e).__name__, e), **info)
+        check_xml(ex, xml, texts, "Font", "Fm1", True, info)
+
+    def conc(m, info):
+        return info
+    return core.run_symx("H2_xml", fn, [cv.XMLConverter.receive_layout, cv.XMLConverter.write_text], {"glyph text": "a + one of U+0000..U+001F, U+007F + b", "strip_control": "on"}, timeout, concretize=conc)
+
+
 def h1_enc(maxlen=3, timeout=100, part=None, **kw):
     import pdfminer.utils as u
 
@@ -272,7 +294,7 @@ def replay(harness, inp):
 def jobs(tier):
     ml = 3 if tier == "quick" else 4
     t = 300 if tier == "quick" else 1800
-    J = [Job("H1_enc", "h1_enc", {"maxlen": 3 if tier == "quick" else 4}, t, "H1_enc")]
+    J = [Job("H1_enc", "h1_enc", {"maxlen": 3 if tier == "quick" else 4}, t, "H1_enc"), Job("H2_xml:controls", "h2_controls", {}, 100, "H2_xml")]
     for k in range(8):
         J.append(Job("H2_xml:%d" % k, "h2_xml", {"maxlen": ml, "part": [k, 8, 9]}, t, "H2_xml"))
     for k in range(7):
